@@ -301,16 +301,168 @@ theorem mem_baseShapes (cfg : Config) (r : Profiler.Result) (b : Shape) (hb : b 
   obtain ⟨⟨cls, cp⟩, hm, rfl⟩ := hb
   exact ⟨cls, cp, hm, rfl, rfl, rfl, rfl⟩
 
-/-- an entry of the cleaned profile is an entry of the built profile -/
-theorem get?_build_of_mem_run (cfg : Config) (g : Graph) (cls : String) (cp : ClassProfile)
-    (h : (cls, cp) ∈ (Profiler.run cfg g).profile) :
-    Dict.get? (build cfg (Tracker.track cfg g) (pass2 cfg (Tracker.track cfg g) g)) cls = some cp := by
-  have hm : (cls, cp) ∈ build cfg (Tracker.track cfg g) (pass2 cfg (Tracker.track cfg g) g) := by
-    simp only [Profiler.run, clean] at h
-    split at h
-    · exact (List.mem_filter.mp h).1
-    · exact h
-  exact (Dict.mem_iff_get? _ (build_WF _ _ _).1 _ _).mp hm
+/-! ### `Dict.erase` and the type-erasing `clean` -/
+
+theorem erase_sublist {ν : Type} (d : Dict String ν) (k : String) : (Dict.erase d k).Sublist d := by
+  induction d with
+  | nil => exact List.Sublist.refl _
+  | cons hd tl ih =>
+    obtain ⟨k', v⟩ := hd
+    by_cases h : k' = k
+    · simp only [Dict.erase, h, if_true]
+      exact List.sublist_cons_self _ _
+    · simp only [Dict.erase, h, if_false]
+      exact List.Sublist.cons_cons _ ih
+
+theorem foldl_erase_sublist {ν : Type} (names : List String) (d : Dict String ν) :
+    (names.foldl (fun d nm => Dict.erase d nm) d).Sublist d := by
+  induction names generalizing d with
+  | nil => exact List.Sublist.refl _
+  | cons nm nms ih =>
+    simp only [List.foldl_cons]
+    exact (ih _).trans (erase_sublist d nm)
+
+/-- every entry of `Dict.erase d k` is an entry of `d` -/
+theorem mem_erase {ν : Type} (d : Dict String ν) (k : String) (x : String × ν)
+    (h : x ∈ Dict.erase d k) : x ∈ d := (erase_sublist d k).subset h
+
+theorem mem_foldl_erase {ν : Type} (names : List String) (d : Dict String ν) (x : String × ν)
+    (h : x ∈ names.foldl (fun d nm => Dict.erase d nm) d) : x ∈ d := (foldl_erase_sublist names d).subset h
+
+theorem WF_of_sublist {ν : Type} (d' d : Dict String ν) (hs : d'.Sublist d) (h : Dict.WF d) : Dict.WF d' := by
+  unfold Dict.WF Dict.keys at *
+  exact List.Nodup.sublist (List.Sublist.map _ hs) h
+
+theorem WF_erase {ν : Type} (d : Dict String ν) (k : String) (h : Dict.WF d) : Dict.WF (Dict.erase d k) :=
+  WF_of_sublist _ _ (erase_sublist d k) h
+
+theorem WF_foldl_erase {ν : Type} (names : List String) (d : Dict String ν) (h : Dict.WF d) :
+    Dict.WF (names.foldl (fun d nm => Dict.erase d nm) d) :=
+  WF_of_sublist _ _ (foldl_erase_sublist names d) h
+
+/-- under `WF`, erasing removes exactly the key -/
+theorem get?_erase {ν : Type} (d : Dict String ν) (h : Dict.WF d) (k k' : String) :
+    Dict.get? (Dict.erase d k) k' = if k = k' then none else Dict.get? d k' := by
+  induction d with
+  | nil => simp [Dict.erase]
+  | cons hd tl ih =>
+    obtain ⟨k0, v⟩ := hd
+    obtain ⟨hn, hw⟩ := Dict.WF_cons h
+    by_cases h0 : k0 = k
+    · subst h0
+      simp only [Dict.erase, if_true]
+      by_cases h1 : k0 = k'
+      · subst h1
+        simp only [if_true]
+        exact Dict.get?_of_not_mem _ _ hn
+      · simp [Dict.get?, h1]
+    · simp only [Dict.erase, h0, if_false]
+      by_cases h1 : k0 = k'
+      · subst h1
+        have : ¬ k = k0 := fun e => h0 e.symm
+        simp [Dict.get?, this]
+      · simp only [Dict.get?, h1, if_false]
+        exact ih hw
+
+theorem eraseTypesPP_eq (names : List String) (pp : PropProfile) :
+    eraseTypesPP names pp =
+      pp.map fun (p, ks) => (p, (fun (_ : String) (ks : Dict String (Dict Card Nat)) =>
+        names.foldl (fun d nm => Dict.erase d nm) ks) p ks) := rfl
+
+/-- deleting type keys keeps a sub-collection of the flattened entries -/
+theorem entries_eraseTypesPP (names : List String) (pp : PropProfile) (e : String × String × Card × Nat)
+    (h : e ∈ entries (eraseTypesPP names pp)) : e ∈ entries pp := by
+  unfold entries eraseTypesPP at h
+  unfold entries
+  simp only [List.mem_flatMap, List.mem_map] at h ⊢
+  obtain ⟨⟨p', ks'⟩, ⟨⟨p, ks⟩, hpk, heq⟩, ⟨ty, cs⟩, htc, hrest⟩ := h
+  simp only [Prod.mk.injEq] at heq
+  obtain ⟨rfl, rfl⟩ := heq
+  exact ⟨(p, ks), hpk, (ty, cs), mem_foldl_erase names ks _ htc, hrest⟩
+
+theorem PPWF_eraseTypesPP (names : List String) (pp : PropProfile) (h : PPWF pp) :
+    PPWF (eraseTypesPP names pp) := by
+  obtain ⟨hw, hin⟩ := h
+  rw [eraseTypesPP_eq]
+  refine ⟨Dict.WF_map_snd pp (fun (_ : String) (ks : Dict String (Dict Card Nat)) =>
+    names.foldl (fun d nm => Dict.erase d nm) ks) hw, ?_⟩
+  intro p ks' hg
+  rw [Dict.get?_map_snd pp (fun (_ : String) (ks : Dict String (Dict Card Nat)) =>
+    names.foldl (fun d nm => Dict.erase d nm) ks) p] at hg
+  cases hq : Dict.get? pp p with
+  | none => rw [hq] at hg; simp at hg
+  | some ks =>
+    rw [hq] at hg
+    simp only [Option.map_some, Option.some.injEq] at hg
+    subst hg
+    obtain ⟨hwk, hin2⟩ := hin p ks hq
+    refine ⟨WF_foldl_erase names ks hwk, ?_⟩
+    intro ty cs hg2
+    have hm := mem_foldl_erase names ks _ (Dict.mem_of_get? _ _ _ hg2)
+    exact hin2 ty cs ((Dict.mem_iff_get? ks hwk _ _).mp hm)
+
+/-- candidates of a type-erased property profile are candidates of the original one -/
+theorem candidates_eraseTypesPP (cfg : Config) (N : Nat) (inv : Bool) (names : List String) (pp : PropProfile)
+    (c : Stmt) (h : c ∈ candidates cfg N inv (eraseTypesPP names pp)) : c ∈ candidates cfg N inv pp := by
+  obtain ⟨e, he, hp, rfl⟩ := (mem_candidates cfg N inv _ c).mp h
+  exact (mem_candidates cfg N inv pp _).mpr ⟨e, entries_eraseTypesPP names pp e he, hp, rfl⟩
+
+/-- shape of one cleaning round, for arbitrary selection predicate and list of names -/
+theorem get?_filter_map_erase (prof : Profile) (hw : Dict.WF prof) (q : String × ClassProfile → Bool)
+    (names : List String) (c : String) (cp' : ClassProfile)
+    (h : Dict.get? ((prof.filter q).map fun (c, cp) => (c, eraseTypes names cp)) c = some cp') :
+    ∃ cp, Dict.get? prof c = some cp ∧ cp' = eraseTypes names cp := by
+  rw [Dict.get?_map_snd (prof.filter q) (fun _ cp => eraseTypes names cp) c, Dict.get?_filter _ _ hw] at h
+  cases hq : Dict.get? prof c with
+  | none => rw [hq] at h; simp at h
+  | some cp =>
+    rw [hq] at h
+    by_cases hf : q (c, cp) = true
+    · simp [Option.filter, hf] at h
+      exact ⟨cp, rfl, h.symm⟩
+    · simp [Option.filter, hf] at h
+
+/-- lookups in the cleaned profile: the class has an entry in the original profile, and the cleaned entry is
+that entry, possibly with some type keys deleted -/
+theorem get?_clean (cfg : Config) (prof : Profile) (hw : Dict.WF prof) (c : String) (cp' : ClassProfile)
+    (h : Dict.get? (clean cfg prof) c = some cp') :
+    ∃ cp, Dict.get? prof c = some cp ∧ (cp' = cp ∨ ∃ names, cp' = eraseTypes names cp) := by
+  unfold clean at h
+  split at h
+  · simp only at h
+    generalize (List.map _ (List.filter _ prof) : List String) = names at h
+    obtain ⟨cp, h1, h2⟩ := get?_filter_map_erase prof hw _ names c cp' h
+    exact ⟨cp, h1, Or.inr ⟨names, h2⟩⟩
+  · exact ⟨cp', h, Or.inl rfl⟩
+
+theorem WF_clean (cfg : Config) (prof : Profile) (hw : Dict.WF prof) : Dict.WF (clean cfg prof) := by
+  unfold clean
+  split
+  · simp only
+    generalize (List.map _ (List.filter _ prof) : List String) = names
+    exact Dict.WF_map_snd (prof.filter _) (fun _ cp => eraseTypes names cp) (Dict.WF_filter _ _ hw)
+  · exact hw
+
+/-- an entry of the cleaned profile comes from an entry of the built profile of the same class, possibly with
+some type keys deleted -/
+theorem get?_build_of_mem_run (cfg : Config) (g : Graph) (cls : String) (cp' : ClassProfile)
+    (h : (cls, cp') ∈ (Profiler.run cfg g).profile) :
+    ∃ cp, Dict.get? (build cfg (Tracker.track cfg g) (pass2 cfg (Tracker.track cfg g) g)) cls = some cp ∧
+      (cp' = cp ∨ ∃ names, cp' = eraseTypes names cp) := by
+  have hw := (build_WF cfg (Tracker.track cfg g) (pass2 cfg (Tracker.track cfg g) g)).1
+  apply get?_clean cfg _ hw cls cp'
+  exact (Dict.mem_iff_get? _ (WF_clean cfg _ hw) _ _).mp h
+
+/-- candidates built from the cleaned entry are candidates built from the original entry -/
+theorem candidates_of_cleaned (cfg : Config) (N : Nat) (inv : Bool) (cp cp' : ClassProfile)
+    (h : cp' = cp ∨ ∃ names, cp' = eraseTypes names cp) (c : Stmt)
+    (hcm : c ∈ candidates cfg N inv (if inv then cp'.inverse else cp'.direct)) :
+    c ∈ candidates cfg N inv (if inv then cp.inverse else cp.direct) := by
+  rcases h with rfl | ⟨names, rfl⟩
+  · exact hcm
+  · cases inv
+    · exact candidates_eraseTypesPP cfg N false names cp.direct c hcm
+    · exact candidates_eraseTypesPP cfg N true names cp.inverse c hcm
 
 /-- the figure of a candidate is the declarative count -/
 theorem cand_count (cfg : Config) (hc : cfg.cap = 0) (g : Graph)
@@ -341,14 +493,15 @@ theorem cand_figure (cfg : Config) (hc : cfg.cap = 0) (g : Graph)
     (b : Shape) (hb : b ∈ baseShapes cfg (Profiler.run cfg g)) (inv : Bool) (hinv : inv = true → cfg.inverse = true)
     (c : Stmt) (hcm : c ∈ candsOf b inv) :
     c.n = Spec.countOver cfg (Tracker.track cfg g) g b.classUri inv c.prop c.ty c.card := by
-  obtain ⟨cls, cp, hm, hcls, _, _, hst⟩ := mem_baseShapes cfg _ b hb
-  have hget := get?_build_of_mem_run cfg g cls cp hm
+  obtain ⟨cls, cp', hm, hcls, _, _, hst⟩ := mem_baseShapes cfg _ b hb
+  obtain ⟨cp, hget, hrel⟩ := get?_build_of_mem_run cfg g cls cp' hm
   unfold candsOf at hcm
   rw [List.mem_filter, mem_sortDesc, hst] at hcm
   obtain ⟨hmem, hci⟩ := hcm
   have hci : c.inverse = inv := by simpa using hci
   rw [hcls]
   apply cand_count cfg hc g hnd cls cp hget b.nInstances inv hinv
+  apply candidates_of_cleaned cfg b.nInstances inv cp cp' hrel
   rcases List.mem_append.mp hmem with h | h
   · have := (candidate_props cfg _ _ _ c h).2.2.2.1
     rw [hci] at this
